@@ -139,3 +139,85 @@ pub fn tok_value<'a>(t: &'a Tok) -> FluentValue<'a> {
         Tok::Nil => FluentValue::from(Option::<&str>::None),
     }
 }
+
+// ---------------------------------------------------------------------------------------------
+// structured resource descriptions (areas `reg`, `rm`): see lean/FluentModel/Drv/RegDrv.lean
+//   res  := desc (`,` desc)*        desc := m/<id>/<val|~>/<attrs> | t/<id>/<val>/<attrs> | e/<id> | j | c
+//   attrs := (<name>=<val> (`+` <name>=<val>)*)?          all of id/name/val are hex tokens
+
+/// FTL text of a structured resource description (None = malformed description)
+pub fn render_res(desc: &str) -> Option<String> {
+    let mut out = String::new();
+    if desc.is_empty() {
+        return Some(out);
+    }
+    for d in desc.split(',') {
+        let p: Vec<&str> = d.split('/').collect();
+        match p.as_slice() {
+            ["j"] => out.push_str("!!!\n"),
+            ["c"] => out.push_str("# c\n"),
+            ["e", id] => {
+                out.push_str(&hex_str(id)?);
+                out.push_str(" =\n");
+            }
+            [k @ ("m" | "t"), id, v, attrs] => {
+                if *k == "t" {
+                    out.push('-');
+                }
+                out.push_str(&hex_str(id)?);
+                if *v == "~" {
+                    if *k == "t" {
+                        return None;
+                    }
+                    out.push_str(" =\n");
+                } else {
+                    out.push_str(" = ");
+                    out.push_str(&hex_str(v)?);
+                    out.push('\n');
+                }
+                if !attrs.is_empty() {
+                    for nv in attrs.split('+') {
+                        let (n, v) = nv.split_once('=')?;
+                        out.push_str("    .");
+                        out.push_str(&hex_str(n)?);
+                        out.push_str(" = ");
+                        out.push_str(&hex_str(v)?);
+                        out.push('\n');
+                    }
+                }
+            }
+            _ => return None,
+        }
+    }
+    Some(out)
+}
+
+/// hex of the text of a pattern; a placeable is printed as `{}` (never produced by `render_res` texts)
+pub fn pat_text(p: &fluent_syntax::ast::Pattern<&str>) -> String {
+    let mut s = String::new();
+    for e in &p.elements {
+        match e {
+            fluent_syntax::ast::PatternElement::TextElement { value } => s.push_str(value),
+            fluent_syntax::ast::PatternElement::Placeable { .. } => s.push_str("{}"),
+        }
+    }
+    hex_enc(s.as_bytes())
+}
+
+/// `M`/`T`/`J`/`C` per body entry of a parsed resource (`-` = empty body)
+pub fn res_shape(r: &fluent_bundle::FluentResource) -> String {
+    let s: String = r
+        .entries()
+        .map(|e| match e {
+            fluent_syntax::ast::Entry::Message(_) => 'M',
+            fluent_syntax::ast::Entry::Term(_) => 'T',
+            fluent_syntax::ast::Entry::Junk { .. } => 'J',
+            _ => 'C',
+        })
+        .collect();
+    if s.is_empty() {
+        "-".to_string()
+    } else {
+        s
+    }
+}
